@@ -102,8 +102,8 @@ class CHECK(core.Check):
                "the oracle's exact geometry (Fractions, generic-direction ray casting, simplicity test) written for this check",
                "integer coordinates only: float inputs (rounding in products) are outside the model"]
     PARTIAL = ["C44_full (crossing sum = geometric interior for every simple polygon, i.e. the Jordan curve theorem for "
-               "polygons) is NOT proved; proved instances: C44_rectangle_interior_partial, C44_triangle… see Props/C44.lean; the "
-               "general statement rests on the exhaustive and random comparisons with exact ray casting",
+               "polygons) is NOT proved; proved instance: C44_rectangle_interior_partial (every axis-parallel rectangle, with the rotation / "
+               "reversal / translation theorems); the general statement rests on the exhaustive and random comparisons with exact ray casting",
                "float coordinates"]
     TECHNIQUE = ("Lean 4 theorems for arbitrary vertex lists (loop invariants, cyclic-pairs lemmas, polynomial identities by "
                  "grind) + bounded-exhaustive and random comparison of the real functions with the model and with exact geometry")
@@ -111,7 +111,7 @@ class CHECK(core.Check):
                   "sideOnly <-> vertex or on a side; exactly one of insideOnly / sideOnly / outsideOnly, inside/outside = strict "
                   "part or (side flag and boundary); wind = 0 <-> not strictly inside; wind(reverse) = -wind; invariance under "
                   "rotation of the vertex list and translation. PARTIAL: agreement of the strict interior with geometry is "
-                  "proved only for the instances named in PARTIAL, not for every simple polygon (Jordan); there the evidence is "
+                  "proved only for axis-parallel rectangles (C44_rectangle_interior_partial), not for every simple polygon (Jordan); there the evidence is "
                   "the exhaustive/random agreement with exact rational ray casting.")
     LEVEL_NOTE = ("Trusted: Lean kernel; axioms propext, Classical.choice, Quot.sound; hand transcription of vectoring.py "
                   "validated by the correspondence runs; the oracle's own geometry; no proof of the Jordan-curve part.")
